@@ -31,12 +31,12 @@ TRUSTED = [
 ASSUMPTIONS = [
     'the random-access data does not raise (failing elements are the subject of C12)',
     'shard offsets do not exceed the shard length and shard_index < num_shards (C09 covers shard itself)',
-    'one runner per pipeline (one named transform); aggregate state copied by value',
+    'pipelines of one runner or of two chained named transforms (two runners); aggregate state copied by value',
 ]
 RULE = ('corpus (witnesses of F1/F12/F16 and of the restore-twice aliasing), then small-exhaustive second-generation '
         'restores (every pair of cut points of sources of <= 7 elements under 9 shard chains, both source kinds), then '
         'random histories (<= 6 checkpoints, sources <= 30 elements, shard chains of depth <= 3, merged sequences, '
-        'pipelines map / filter / batch / re-batch with three aggregates, num_threads in {0,1,2,4}, both restore '
+        'pipelines map / filter / batch / re-batch / two chained named transforms, three aggregates, num_threads in {0,1,2,4}, both restore '
         'idioms) and ~8% rejected configurations (num_shards = 0); non-trivial = at least one restore that follows '
         'a delivered element while elements remain; distinct = distinct canonical case JSON')
 
@@ -110,6 +110,8 @@ def rand_pipe(rng, scalar):
     pipe['via'] = 'batch' if scalar else 'apply'
   if (not scalar or (pipe['target'] and pipe['via'] == 'batch')) and rng.random() < 0.4:
     pipe['agg'] = 'meanvar'
+  if not pipe['target'] and rng.random() < 0.25:
+    pipe['chain2'] = dict(a=rng.choice([1, 2]), b=rng.choice([0, 5]))
   return pipe
 
 
@@ -162,7 +164,7 @@ def gen_cases(ctx):
       threads = rng.choice([0, 0, 0, 1, 2, 4])
       if threads and kind == 'iter':
         src = dict(kind='iter', idx=0, num=1, off=0)    # _actual_inputs re-shards the iterable itself
-      if threads and pipe['target']:
+      if threads and (pipe['target'] or pipe.get('chain2')):
         threads = 0                                     # batch boundaries depend on threads (C03/F18), not C10
     elif not scalar:
       scalar, data = True, mk_data(n)
@@ -173,6 +175,7 @@ def gen_cases(ctx):
     ctx.count('threads', threads if pipe else 'source-only')
     ctx.count('pipeline', 'none' if not pipe else ('rebatch' if pipe['target'] and not scalar else
                                                    'batch' if pipe['target'] else 'filter' if pipe['drop'] else 'map'))
+    ctx.count('runners', 0 if not pipe else 2 if pipe.get('chain2') else 1)
     ctx.count('checkpoints', sum(1 for o in ops if o[0] == 'ckpt'))
     ctx.count('restores', sum(1 for o in ops if o[0] == 'restore'))
     yield case
@@ -202,7 +205,7 @@ def _req(case, ops):
   pipe = None
   if case.get('pipe'):
     pc = case['pipe']
-    pipe = dict(a=pc['a'], b=pc['b'], drop=pc.get('drop'), target=pc.get('target', 0))
+    pipe = dict(a=pc['a'], b=pc['b'], drop=pc.get('drop'), target=pc.get('target', 0), chain2=pc.get('chain2'))
   return dict(model='resume', src=s, data=case['data'], pipe=pipe, threads=0, ops=ops, final=case['final'])
 
 
